@@ -5,6 +5,8 @@ Local Open Scope N_scope.
 
 (* which of the two jump tables / counters / limits / overflow errors *)
 Inductive which := WB | WC.
+(* how a nested counting emitter gets a flag: constant, or the enclosing emitter's current value *)
+Inductive flagsrc := FTrue | FFalse | FInherit.
 
 Definition break_limit : N := 100.
 Definition continue_limit : N := 100.
@@ -32,4 +34,8 @@ Definition proc_continue_tab := WC.
 Definition proc_continue_idx := WC.
 
 Definition switch_sub_depth : N := 18446744073709551615.   (* EmitSwitch: ScriptEmitter emitter(countManager, .., info): default maxDepth *)
+Definition switch_sub_canbreak := FTrue.
+Definition switch_sub_cancontinue := FInherit.
+Definition catch_sub_canbreak := FInherit.
+Definition catch_sub_cancontinue := FInherit.
 Definition max_depth : N := 18446744073709551615.   (* size_t maxDepth = -1 *)
